@@ -304,7 +304,15 @@ func RunProperty(repo, verifDir, prop, tier string, seed int) int {
 			return prop == "C18"
 		case "pre", "post", "zero", "lemma":
 			if prop == "C18" {
-				return false // C18 is decided by the frame obligations alone
+				// C18 is decided by the frame obligations, plus the clauses
+				// that establish the representation invariants (cap == len)
+				// those frame proofs assume
+				for _, t := range o.Props {
+					if t == "C18" {
+						return true
+					}
+				}
+				return false
 			}
 		case "noalias":
 			return prop == "C08"
